@@ -399,6 +399,14 @@ func c16(c *Ctx) {
 		}
 	}
 
+	// V1b the parser refuses a text only when the TOML decoder does: the API validates an update with the decoder before it
+	// proposes it, every replica parses it again with config.FromString when it applies it — a text the API accepted and a
+	// replica refuses is skipped there (logged) while the revision in the log moves on
+	if fs := c.P.Func("config.FromString"); fs != nil {
+		if c.noOwnErrors("C16.V1", fs, "an update that POST /config accepted is skipped when it is applied: the configuration that is in force (operators, services passwords, expiration, limits) is not the one the network was given") == 0 {
+			r.Break("C16.V1: config.FromString returns no error")
+		}
+	}
 	// V3b the restored configuration is the stored one: its lists have the stored length (no zero-valued entries in front)
 	if um := c.P.Func("ircserver.(*IRCServer).Unmarshal"); um != nil {
 		inConfig := func(t *types.Slice) bool {
